@@ -101,6 +101,58 @@ pub fn base_states(p: &Profile) -> Vec<(String, Vec<Step>)> {
     v
 }
 
+/// Scripted start states with many orders: a long queue at one price on each side (fifteen
+/// orders, partially swept), and a history of several hundred orders (ids beyond 255) most of
+/// which are dead. Explored with `id_window` so that the branching stays small.
+pub fn big_bases(p: &Profile) -> Vec<(String, Vec<Step>)> {
+    let (lo, mid) = (p.prices[0], p.prices[p.prices.len() / 2]);
+    let hi = p.prices[p.prices.len() - 1];
+    let mut v = Vec::new();
+    let mut q = Vec::new();
+    for i in 0..15u32 {
+        q.push(lim(false, mid, 1 + i % 3));
+        q.push(lim(true, lo, 1 + (i + 1) % 3));
+    }
+    q.push(lim(false, hi, 2));
+    q.push(mkt(true, 4));
+    q.push(mkt(false, 2));
+    v.push(("long-queues".to_string(), q));
+    let mut h2 = Vec::new();
+    let mut n = 0usize;
+    for i in 0..130u32 {
+        h2.push(lim(true, lo, 1 + i % 2));
+        let bid_id = n;
+        n += 1;
+        if i % 3 != 0 {
+            h2.push(st(Op::Cancel { id: bid_id, ev: false }));
+        }
+        h2.push(lim(false, mid, 1));
+        n += 1;
+        if i % 5 == 4 {
+            h2.push(mkt(true, 3));
+            n += 1;
+        }
+    }
+    // sweep everything that is left, then a small fresh book whose ids are all beyond 255
+    h2.push(mkt(true, 400));
+    h2.push(mkt(false, 400));
+    h2.push(lim(false, mid, 2));
+    h2.push(lim(false, mid, 1));
+    h2.push(lim(true, lo, 2));
+    h2.push(lim(false, hi, 1));
+    v.push(("hundreds-of-orders".to_string(), h2));
+    v
+}
+
+pub fn with_big_bases(out: &mut Vec<Plan>, label: &str, profile: &Profile, levels: usize, depth: usize) {
+    for (name, base) in big_bases(profile) {
+        let mut p = profile.clone();
+        p.name = format!("{}@{}", p.name, name);
+        p.id_window = 6;
+        out.push(Plan { label: format!("{}@{}", label, name), profile: p, levels, depth, base });
+    }
+}
+
 /// A deep, asymmetric ladder: 12 price levels per side around the profile's prices, with
 /// different volumes and order counts per level, so that every published level is populated.
 pub fn deep_ladder(p: &Profile) -> Vec<Step> {
@@ -262,6 +314,13 @@ pub fn c01(tier: &str) -> i32 {
     plans.push(plan("tick 3: modify through process_event", rpe, 3, if t { 4 } else { 3 }));
     with_bases(&mut plans, "core tick 1", &core1, 3, if t { 5 } else { 3 });
     with_bases(&mut plans, "core + modify", &rp, 3, if t { 4 } else { 2 });
+    with_big_bases(&mut plans, "core + modify", &rp, 3, if t { 3 } else { 2 });
+    // large magnitudes: times beyond 2^32, prices beyond 2^31, volumes beyond 2^16 and 2^31
+    let mut mg = Profile::magnitude("magnitudes");
+    mg.modify = true;
+    mg.modify_prices = true;
+    mg.modify_vols = vec![70_001];
+    plans.push(plan("large times, prices and volumes", mg, 3, if t { 5 } else { 4 }));
     execute(
         &mut out,
         plans,
@@ -350,6 +409,14 @@ pub fn c02(tier: &str) -> i32 {
         let base = deep_ladder(&p);
         plans.push(Plan { label: format!("deep 12-level ladder, tick {} levels {}", tick, l), profile: p, levels: l, depth: if t { 3 } else { 2 }, base });
     }
+    let mut mg = Profile::magnitude("views-magnitudes");
+    mg.modify = true;
+    mg.modify_prices = true;
+    mg.modify_vols = vec![70_001];
+    mg.toggles = true;
+    mg.reload_modes = vec![0];
+    plans.push(plan("large times, prices and volumes", mg.clone(), 3, if t { 4 } else { 3 }));
+    with_big_bases(&mut plans, "main tick 1", &main, 10, if t { 3 } else { 2 });
     execute(
         &mut out,
         plans,
@@ -390,6 +457,13 @@ pub fn c03(tier: &str) -> i32 {
     pe.toggles = false;
     plans.push(plan("modify via events, clock {0,+1} disciplined", pe, 3, if t { 4 } else { 3 }));
     with_bases(&mut plans, "ledger", &p, 3, if t { 4 } else { 2 });
+    with_big_bases(&mut plans, "ledger", &p, 3, if t { 3 } else { 2 });
+    let mut mg = Profile::magnitude("ledger-magnitudes");
+    mg.modify = true;
+    mg.modify_prices = true;
+    mg.modify_vols = vec![70_001];
+    mg.toggles = true;
+    plans.push(plan("large times, prices and volumes", mg, 3, if t { 5 } else { 4 }));
     execute(
         &mut out,
         plans,
@@ -428,6 +502,14 @@ pub fn c04(tier: &str) -> i32 {
     core.set_time_op = true;
     plans.push(plan("core + set_time", core, 3, if t { 6 } else { 5 }));
     with_bases(&mut plans, "lifecycle", &p, 3, if t { 4 } else { 2 });
+    with_big_bases(&mut plans, "lifecycle", &p, 3, if t { 3 } else { 2 });
+    let mut mg = Profile::magnitude("lifecycle-magnitudes");
+    mg.create_place = true;
+    mg.redundant_place = true;
+    mg.set_time_op = true;
+    mg.prices = vec![2_147_483_647, 2_147_483_648];
+    mg.limit_vols = vec![1, 3_000_000_000];
+    plans.push(plan("large times (set_time by 2^33), prices and volumes", mg, 3, if t { 5 } else { 4 }));
     // C04 has no clock-discipline clause: the same requests with the clock NOT advanced
     let mut pt = p.clone();
     pt.name = "lifecycle-ties".into();
@@ -488,6 +570,14 @@ pub fn c06(tier: &str) -> i32 {
     p3.modify_vols = vec![1, 3];
     plans.push(plan("tick 3, through process_event", p3, 3, if t { 4 } else { 3 }));
     with_bases(&mut plans, "modify", &p, 3, if t { 4 } else { 2 });
+    with_big_bases(&mut plans, "modify", &p, 3, 2);
+    let mut mg = Profile::magnitude("modify-magnitudes");
+    mg.modify = true;
+    mg.modify_prices = true;
+    mg.modify_vols = vec![1, 70_001, 2_147_483_652];
+    mg.prices = vec![2_147_483_647, 2_147_483_648];
+    mg.limit_vols = vec![70_000, 2_000_000_000, 3_000_000_000];
+    plans.push(plan("large times, prices and volumes", mg, 3, if t { 5 } else { 4 }));
     execute(
         &mut out,
         plans,
